@@ -8,7 +8,7 @@ ID = 'C04'
 PROPS_FILE = 'theories/Props/C04.v'
 PROPS_MODULE = 'Props.C04'
 COQ_TARGETS = ['theories/Extract/ExtractSyntax.vo']
-REQUIRED_THEOREMS = ['C04_serialize_total', 'C04_indent_balanced', 'C04_output_extends', 'C04_junk_verbatim', 'C04_junk_skipped', 'C04_comment_lines', 'C04_roundtrip_simple_partial', 'C04_fixpoint_simple_partial', 'C04_simple_are_parser_outputs', 'C04_roundtrip_multiline_partial', 'C04_fixpoint_multiline_partial', 'C04_multiline_output', 'C04_multiline_contains_parser_outputs', 'C04_simple_in_multiline', 'C04_roundtrip_select_partial', 'C04_fixpoint_select_partial', 'C04_select_output', 'C04_select_contains_parser_outputs', 'C04_multiline_in_select']
+REQUIRED_THEOREMS = ['C04_serialize_total', 'C04_indent_balanced', 'C04_output_extends', 'C04_junk_verbatim', 'C04_junk_skipped', 'C04_comment_lines', 'C04_roundtrip_simple_partial', 'C04_fixpoint_simple_partial', 'C04_simple_are_parser_outputs', 'C04_roundtrip_multiline_partial', 'C04_fixpoint_multiline_partial', 'C04_multiline_output', 'C04_multiline_contains_parser_outputs', 'C04_simple_in_multiline', 'C04_roundtrip_select_partial', 'C04_fixpoint_select_partial', 'C04_select_output', 'C04_select_contains_parser_outputs', 'C04_multiline_in_select', 'C04_roundtrip_wellformed_sources_partial', 'C04_roundtrip_nested_partial', 'C04_fixpoint_nested_partial', 'C04_nested_output', 'C04_nested_contains_parser_outputs']
 MODEL = 'syn'
 HARNESS_BINS = ['syn_run']
 ANCHORS = ['fluent-syntax/src/serializer.rs', 'fluent-syntax/src/parser/pattern.rs', 'fluent-syntax/src/parser/comment.rs']
@@ -176,17 +176,19 @@ def nontrivial(case, out):
     return out if ('(msg ' in out or '(term ' in out) else None
 
 
-PARTIAL = ('serializer totality, balanced indentation, buffer growth, Junk and comment emission are proved for ALL trees; the round trip and the '
-           'fixed point are stated in full (C04_roundtrip_statement, C04_fixpoint_statement) but proved only for the fragment ssel_resource d, every depth d (parser outputs whose values are multi-line patterns of text, '
-           'simple placeables, nested placeables and select expressions, attached comments, attributes — it contains the parser tree of EVERY layout of every tree of C02\'s multi-line fragment); '
-           'for all other parser outputs (function/term calls with arguments) they are decided by the round-trip oracle on the implementation. The full '
-           'statements are refuted on the current tree by the known finding D7 (theorems ..._refuted_by_D7).')
+PARTIAL = ('serializer totality, balanced indentation, buffer growth, Junk and comment emission are proved for ALL trees. Round trip AND fixed '
+           'point (both options) are proved for the parser output of EVERY layout of EVERY well-formed tree whose comments end in a non-blank '
+           'line (C04_roundtrip_wellformed_sources_partial). Not covered by the proof: parser outputs of sources that are not a layout of a '
+           'well-formed tree (sources with errors/Junk, lone CRs) — decided there by the round-trip oracle on the implementation — and the '
+           'shape of D7. The unrestricted statements are refuted on the current tree by D7 (theorems ..._refuted_by_D7).')
 
 MANIFEST = {
     'text': 'Rocq theorems about the Gallina transliteration of the serializer (SerializerModel.v): never panics and restores the indent '
-            'level for ALL trees; Junk verbatim / skipped; comment line format; round trip and fixed point PROVED for the fragment '
-            'ssel_resource d (multi-line values, nested placeables and selects of any depth, in the split form the parser returns; exact canonical text), and checked for every other parser output by running '
-            'parse/serialize/parse/serialize on the extracted model and on the real crate and comparing both trees and both texts.',
+            'level for ALL trees; Junk verbatim / skipped; comment line format; the exact canonical text; round trip and fixed point '
+            'PROVED for the parser output of every layout of every well-formed tree with comments_end_ok (any nesting of selects, '
+            'placeables and call arguments, multi-line values), composed with the parser model; every other parser output (sources '
+            'with Junk) is checked by running parse/serialize/parse/serialize on the extracted model and on the real crate and '
+            'comparing both trees and both texts.',
     'note': 'PARTIAL proof of the round trip (fragment). Trusted: as C01 plus String operations as list operations. Known findings D7, D30.',
     'technique': 'Rocq proof (writer invariants for all trees; print/parse round trip for a fragment) + differential correspondence check + round-trip oracle',
     'design_ref': 'DESIGN.md §4 C04, §10',
